@@ -234,3 +234,71 @@ def inline_async(prog, fn, depth=1, accept=None):
     rec["vars"] = vars_
     rec["inlined"] = list(fn.rec.get("inlined", [])) + inlined
     return Fn(rec)
+
+
+CLOSURE_CALL_RX = r"core::ops::function::(FnOnce::call_once|FnMut::call_mut|Fn::call)$"
+
+
+def inline_closure_calls(prog, fn, rounds=2):
+    """Resolve `f(args)` where f is, in this (possibly already inlined) body, a closure literal: the closure's body is
+    spliced in with its parameters bound to the components of the argument tuple. -> mir.Fn (or fn)"""
+    import re
+    cur = fn
+    for _ in range(rounds):
+        rec = dict(cur.rec)
+        blocks = copy.deepcopy(cur.rec["blocks"])
+        locals_ = list(cur.rec["locals"])
+        vars_ = dict(cur.rec.get("vars", {}))
+        done = []
+        for bi in range(len(cur.rec["blocks"])):
+            t = blocks[bi]["t"]
+            if t["k"] != "call" or blocks[bi]["cleanup"] or not re.search(CLOSURE_CALL_RX, t.get("decl") or t.get("callee") or ""):
+                continue
+            args = t.get("args", [])
+            if len(args) != 2 or args[0][0] not in ("c", "m"):
+                continue
+            st = cur.origin(args[0])
+            agg = st[-1][1] if st and st[-1][0] == "agg" and st[-1][1][1].get("k") == "closure" else None
+            body = prog.fns.get(agg[1]["def"]) if agg else None
+            if body is None or body.coroutine or len(blocks) + len(body.blocks) > MAX_BLOCKS:
+                continue
+            n = body.argc - 1
+            lbase = len(locals_)
+            bbase = len(blocks)
+            locals_ += list(body.rec["locals"])
+            lmap = lambda l, lbase=lbase: l + lbase
+            bmap = lambda x, bbase=bbase: x + bbase
+            prefix = body.file if body.file != cur.file else ""
+            for name, place in body.rec.get("vars", {}).items():
+                vars_["%s~%d" % (name, lbase)] = _remap(place, lmap, "")
+            b = blocks[bi]
+            b["st"].append({"k": "=", "p": [lmap(1), []], "r": ["use", copy.deepcopy(args[0])], "sp": t.get("sp"), "inl": body.key})
+            tup = args[1]
+            for i in range(n):
+                if tup[0] in ("c", "m"):
+                    comp = [tup[0], [tup[1][0], list(tup[1][1]) + [["f", i, str(i), ""]]]]
+                else:
+                    comp = copy.deepcopy(tup)
+                b["st"].append({"k": "=", "p": [lmap(2 + i), []], "r": ["use", comp], "sp": t.get("sp"), "inl": body.key})
+            dest, target = t["dest"], t.get("target")
+            unwind_to = t.get("unwind") if isinstance(t.get("unwind"), int) else None
+            for sb in body.rec["blocks"]:
+                nb = {"cleanup": sb["cleanup"], "st": _remap(sb["st"], lmap, prefix), "t": _retarget(_remap(sb["t"], lmap, prefix), bmap, unwind_to)}
+                tt = nb["t"]
+                if tt["k"] == "return":
+                    if target is None:
+                        nb["t"] = {"k": "unreachable", "sp": tt.get("sp")}
+                    else:
+                        nb["st"].append({"k": "=", "p": copy.deepcopy(dest), "r": ["use", ["m", [lmap(0), []]]], "sp": t.get("sp"), "inl": body.key})
+                        nb["t"] = {"k": "goto", "target": target, "sp": tt.get("sp")}
+                elif tt["k"] == "resume" and unwind_to is not None:
+                    nb["t"] = {"k": "goto", "target": unwind_to, "sp": tt.get("sp")}
+                blocks.append(nb)
+            b["t"] = {"k": "goto", "target": bmap(0), "sp": t.get("sp"), "inlined": body.key}
+            done.append(body.key)
+        if not done:
+            break
+        rec["blocks"], rec["locals"], rec["vars"] = blocks, locals_, vars_
+        rec["inlined"] = list(cur.rec.get("inlined", [])) + done
+        cur = Fn(rec)
+    return cur
